@@ -16,7 +16,7 @@ while IFS='	' read -r id demo dest pkg run; do
   base=$(/verif/tools/baseline.sh $W | tail -1)
   if [ "$demo" = run.sh ]; then
     # self-contained driver (generates bindings from a manifest, compiles and tests them); expects to live in <worktree>/_seed/N
-    mkdir -p $W/_seed/1 && cp $d/* $W/_seed/1/
+    mkdir -p $W/_seed/1 && cp -r $d/. $W/_seed/1/
     with=$(sh $W/_seed/1/run.sh 2>&1 | tail -1); git reset -q --hard
     without=$(sh $W/_seed/1/run.sh 2>&1 | tail -1); rm -rf $W/_seed; git clean -fdq
     echo "$id | baseline: $base | with: $with | without: $without"; continue
